@@ -161,6 +161,10 @@ class Cfg:
     def hint(self, rng):
         return rng.choice([1, 2, 3, 5, 8, 64, 1024])
 
+    def with_debug(self):
+        """the same configuration built with debug=True (the error_info construction of every error path runs)"""
+        return Cfg(self.name + "+debug", self.family, self.cfg, list(self.impl) + [b"debug"], sep=self.sep, limit=self.limit)
+
 
 CONFIGS = [
     Cfg("line-ascii-LF", 0, [b"\n", 24, 0], [b"line", b"ascii"], sep=b"\n", limit=24),
@@ -183,6 +187,7 @@ CONFIGS = [
     Cfg("fb-seek1", 7, [16, s2.FB_EXPECTED], [b"fb", b"seek1"], limit=16),
 ]
 BY_NAME = {c.name: c for c in CONFIGS}
+DEBUG_CONFIGS = [c.with_debug() for c in CONFIGS]      # every shipped serializer class here has a debug flag
 
 
 # ------------------------------------------------------------------ mutations
@@ -361,9 +366,10 @@ def framing_cases(tier, rng, thorough):
 def fuzz_cases(tier, rng, thorough):
     n_rand = 80 if thorough else 40
     n_mut = 900 if thorough else 320
-    for c in CONFIGS:
+    for c0 in CONFIGS:
         # (b) random bytes
         for _ in range(n_rand):
+            c = c0.with_debug() if rng.random() < 0.4 else c0
             n = rng.choice([0, 1, 2, 3, 5, 8, 13, 21, 34])
             alphabet = rng.choice([None, b'{}[]",:\\ \n01e-tfn', b"\r\n\x00\xffAa=+/_-", None])
             data = bytes(rng.randrange(256) if alphabet is None else rng.choice(alphabet) for _ in range(n))
@@ -371,6 +377,7 @@ def fuzz_cases(tier, rng, thorough):
                 yield _case(c, data, ch, c.hint(rng), ["random"])
         # (c) mutations of valid streams
         for _ in range(n_mut):
+            c = c0.with_debug() if rng.random() < 0.4 else c0
             frames = [c.frame(rng) for _ in range(rng.randint(1, 3))]
             stream = b"".join(frames)
             tag = "valid"
@@ -454,7 +461,7 @@ def _big(c: Cfg, big):
 
 
 def extreme_cases(tier, rng, thorough):
-    for c0 in CONFIGS:
+    for c0 in CONFIGS + DEBUG_CONFIGS:
         c = _big(c0, BIG)
         for data, tag in extreme_inputs(c, BIG):
             hint = rng.choice([256, BIG])
@@ -468,7 +475,7 @@ def f3_cases(tier, rng, thorough):
     cases in order); exactly one case per known signature carries the `known` marker"""
     marked = set()
     pending = []
-    for c0 in CONFIGS:
+    for c0 in CONFIGS + DEBUG_CONFIGS:
         c = _big(c0, BIG2)
         for data, tag in f3_inputs(c):
             pending.append((c, data, tag))
